@@ -189,9 +189,12 @@ func ruleTC(c *Ctx) {
 				okAll = false
 			case *ssa.Call:
 				// thread.frameAt(i) / the frame just pushed
-				if cal := x.Call.StaticCallee(); cal != nil && (cal.Name() == "frameAt") {
-					why = "frame obtained from the current thread"
-					continue
+				// thread.frameAt(i), thread.allocFrame(): a frame handed out by a method of the writer's own thread
+				if cal := x.Call.StaticCallee(); cal != nil && cal.Signature.Recv() != nil && qualType(cal.Signature.Recv().Type()) == "starlark.Thread" && len(x.Call.Args) > 0 {
+					if isOwnParam(x.Call.Args[0]) && qualType(x.Call.Args[0].Type()) == "starlark.Thread" {
+						why = "frame obtained from the current thread"
+						continue
+					}
 				}
 				if isFreshValue(fc, b.v) && !b.throughPtr {
 					why = "object created in this function"
@@ -215,3 +218,27 @@ func ruleTC(c *Ctx) {
 }
 
 var _ = token.ADD
+
+// isOwnParam: v is a parameter of the enclosing function, possibly reloaded
+// from the cell it was spilled to because a closure captures it.
+func isOwnParam(v ssa.Value) bool {
+	if _, ok := v.(*ssa.Parameter); ok {
+		return true
+	}
+	u, ok := v.(*ssa.UnOp)
+	if !ok || u.Op != token.MUL {
+		return false
+	}
+	al, ok := u.X.(*ssa.Alloc)
+	if !ok || al.Referrers() == nil {
+		return false
+	}
+	n, fromParam := 0, false
+	for _, r := range *al.Referrers() {
+		if st, ok := r.(*ssa.Store); ok && st.Addr == al {
+			n++
+			_, fromParam = st.Val.(*ssa.Parameter)
+		}
+	}
+	return n == 1 && fromParam
+}
